@@ -1011,6 +1011,13 @@ fn gen_expr(rng: &mut Rng, tier: Tier) -> Case {
         4
     } else {
         match (tier, symbols) {
+            // (the digit atom brings ten symbols: the walk is exhaustive, keep it affordable)
+            (Tier::Quick, 10..) => 3,
+            (Tier::Quick, 7..=9) => 4,
+            (Tier::Quick, 5..=6) => 5,
+            (Tier::Thorough, 10..) => 4,
+            (Tier::Thorough, 7..=9) => 5,
+            (Tier::Thorough, 5..=6) => 6,
             (Tier::Quick, 1) => 12,
             (Tier::Quick, 2) => 10,
             (Tier::Quick, 3) => 7,
